@@ -1,5 +1,6 @@
 import PartituraModel.Wire
 import PartituraModel.Model.Kern
+import PartituraModel.Model.KernPbv
 import PartituraModel.Model.Mei
 import PartituraModel.Model.MeiAccept
 import PartituraModel.Model.KernWrite
@@ -210,6 +211,15 @@ def handle (ts : List String) : String :=
     match run kernDoc rest with
     | none => "bad-request"
     | some doc => orErr ((Kern.denote doc).map (kernAnswer what))
+  | "kpbv" :: what :: rest =>
+    -- sub-spine bookkeeping: "code" = parse_by_voice as written, "sem" = the columns of the semantics
+    match run kernDoc rest with
+    | none => "bad-request"
+    | some doc =>
+      match what with
+      | "code" => orErr ((Kern.pbvDoc doc).map (fmtList (fmtList fmtNat)))
+      | "sem" => orErr ((Kern.colsDoc doc).map (fmtList (fmtList fmtNat)))
+      | _ => "bad-request"
   | "mei" :: what :: rest =>
     match run meiDoc rest with
     | none => "bad-request"
